@@ -107,7 +107,7 @@ fn existing_group_alive(s: &mut Setup, rng: &mut Rng) -> Result<(), String> {
     Ok(())
 }
 
-fn trial(prop: &str, i: u64, rng: &mut Rng, out: &mut Outcome, dir: &std::path::Path) {
+pub fn trial(prop: &str, i: u64, rng: &mut Rng, out: &mut Outcome, dir: &std::path::Path) {
     let backend = if i % 6 == 0 { BackendKind::Sqlite } else { BackendKind::Memory };
     let mut s = setup(rng, dir, &format!("c16-{i}"), backend);
     out.evaluations += 1;
@@ -324,6 +324,12 @@ fn trial(prop: &str, i: u64, rng: &mut Rng, out: &mut Outcome, dir: &std::path::
                 let pre_valid = with_mdk!(s.w.clients[r].mdk, x => x.get_welcome(&valid_rumor.id.unwrap()).ok().flatten()).map(|w| welcome_repr(&w));
                 let wid = EventId::from_byte_array(rng.bytes::<32>());
                 let res = with_mdk!(s.w.clients[r].mdk, x => x.process_welcome(&wid, &rumor));
+                if let Err(e) = &res {
+                    crate::capture::error("process_welcome", e);
+                }
+                for gi in 0..s.w.groups.len() {
+                    s.w.learn_secrets(r, gi);
+                }
                 out.count("adversarial_invitations");
                 if vl == "mls-id-of-invited-group" && res.is_ok() {
                     gi_polluted = true;
